@@ -290,8 +290,13 @@ func (f *fetcher) getFromCacheOrFetch(req *http.Request, key cache.CacheKey, cli
 	if cached.Metadata.Object.ETag != "" {
 		up.Header.Set("If-None-Match", cached.Metadata.Object.ETag)
 	}
-	if !cached.Metadata.Object.LastModified.IsZero() {
-		up.Header.Set("If-Modified-Since", cached.Metadata.Object.LastModified.Format(http.TimeFormat))
+	// The date validator is the origin's own Last-Modified, sent back as it was received. A response
+	// that came without one (or with something that is no date) has no date validator: the time it
+	// was stored is this proxy's clock, not a date the origin ever issued.
+	if lm := cached.Metadata.Object.Header.Get("Last-Modified"); lm != "" {
+		if _, err := http.ParseTime(lm); err == nil {
+			up.Header.Set("If-Modified-Since", lm)
+		}
 	}
 
 	fetch, err := f.fetchUpstream(up, key, clientHd)
